@@ -51,6 +51,9 @@ def main(prop, path):
             sess = CC.Session(drv, random.Random(0), rep["config"], tabs["defender"], fail, stats, "replay")
             try:
                 CC.replay_events(sess, rep["events"])
+                # the trajectory files written during the session are part of what is judged
+                if sess.settings.get("storeTraj") and not sess.diverged and not sess.broken:
+                    CC.check_files(sess, fail, stats)
             finally:
                 sess.close()
         elif kind == "goal":
